@@ -177,6 +177,11 @@ def run_check(prop, tier, seed):
                         canary_hit = True
                         continue
                     # prelude lemma failed or front-end message
+                    if j.mode == "vacuity" and (d.definite or d.kind == "resource"):
+                        # the prelude is verified in the verify-mode file of the same job; a vacuity file only answers
+                        # "can `false` be proved from the unit's preconditions and its callees' contracts"
+                        log("note: %s: prelude diagnostic in a vacuity file ignored (line %d: %s)" % (j.label, d.line, d.message.split("\n")[0][:80]))
+                        continue
                     if d.definite or d.kind == "resource":
                         undecided.append("%s: prelude/lemma obligation not discharged at line %d: %s" % (j.label, d.line, d.message.split("\n")[0][:120]))
                     else:
